@@ -364,14 +364,14 @@ pub fn world_candidates(w: &World, stage: usize, step_hint: u64) -> Vec<World> {
         1 => {
             // files, components, knobs
             for i in 0..w.files.len() {
-                if w.files[i].path != "index" && !w.files[i].path.starts_with("comp/") {
+                if w.files[i].path != w.root_path && !w.files[i].path.starts_with("comp/") {
                     let mut w2 = w.clone();
                     w2.files.remove(i);
                     out.push(w2);
                 }
             }
             {
-                let root_i = w.files.iter().position(|f| f.path == "index").unwrap();
+                let root_i = w.files.iter().position(|f| f.path == w.root_path).unwrap();
                 let r = &w.files[root_i];
                 for j in 0..r.templates.len() {
                     let mut w2 = w.clone();
